@@ -1,26 +1,38 @@
 ----------------------------- MODULE XmlReport -----------------------------
 (* C17: --xml reports are well-formed and agree with the run.                *)
 (*                                                                           *)
-(* I-spec of formatter.XMLOutputFormattingWrapper:                           *)
+(* I-spec of formatter.XMLOutputFormattingWrapper and of the place where     *)
+(* Runner.run writes the reports:                                            *)
+(*   RecordImportErrors  Find.global_setup -> output.import_errors: every    *)
+(*                 test module that could not be imported is recorded at     *)
+(*                 *find* time as an error case ("Startup") of a suite named *)
+(*                 after the module - before, and whether or not, any test   *)
+(*                 runs (the filters may select nothing else)                *)
 (*   Record(t, e)  test_success / test_failure / test_error -> _record:      *)
 (*                 a testcase entry is appended to the suite named by the    *)
 (*                 parser chain (parse_unittest: "<module>.<class>" of the   *)
 (*                 object the event is about, name = its id minus that       *)
 (*                 prefix) and the suite's error / failure counters are      *)
-(*                 bumped                                                    *)
-(*   Serialize     writeXMLReports: one file per suite with tests / errors / *)
-(*                 failures attributes and one testcase element per entry;   *)
-(*                 every string goes through the serialiser's per-character  *)
-(*                 treatment (table below)                                   *)
+(*                 bumped; only the tests the filters selected run           *)
+(*   Serialize     Runner.run -> writeXMLReports: one file per suite with    *)
+(*                 tests / errors / failures attributes and one testcase     *)
+(*                 element per entry; every string goes through the          *)
+(*                 serialiser's per-character treatment (table below)        *)
 (* Deviations: "SubTestIdentity" (as-built before the fix: a failing subtest *)
 (* is recorded under the _SubTest object's own class, with a name cut out of *)
 (* the wrong id), "CountDistinctTests" (tests attribute counts distinct test *)
 (* objects), "RawSerializer" (ElementTree's own treatment of characters XML  *)
 (* 1.0 does not allow: C0 controls verbatim, surrogates and U+FFFE/F as       *)
-(* numeric references).                                                      *)
+(* numeric references).  Two more are not as-built; they are departures a    *)
+(* plausible edit introduces and are kept as vacuity guards of the clauses   *)
+(* they break: "ReportOnlyIfRan" (the reports are written only when at least *)
+(* one test ran: an import failure reported by a run that ran nothing is     *)
+(* lost) and "KeepPythonWhitespace" (what Python calls white space, VT and FF *)
+(* included, is passed through although XML 1.0 allows TAB, LF and CR only). *)
 EXTENDS Naturals, Sequences, FiniteSets, TLC
 
-CONSTANTS NT, R, Deviations
+CONSTANTS NT, R, NI, Deviations
+ASSUME NI \in 0..2
 
 Outcomes == {<<"ok">>, <<"X">>, <<"S">>, <<"F">>, <<"E">>, <<"U">>, <<"SF">>,
              <<"SF", "SE">>, <<"E", "E">>, <<"F", "E">>, <<"SF", "F">>}
@@ -29,14 +41,34 @@ FailKinds == {"F", "SF"}
 ErrKinds == {"E", "U", "SE"}
 IsSub(e) == e \in {"SF", "SE"}
 Classes == {"A", "B"}
+ModName(k) == IF k = 1 THEN "Mod1" ELSE "Mod2"      \* the suite of the k-th module that fails to import
+ModSuites == {ModName(k) : k \in 1..NI}
+SuiteNames == Classes \cup {"SubTest"} \cup ModSuites
 
-VARIABLES cls, outc, it, t, ev, suites, attrs, pc
-vars == <<cls, outc, it, t, ev, suites, attrs, pc>>
+VARIABLES cls, outc, sel, imp, it, t, ev, ran, suites, attrs, files, pc
+vars == <<cls, outc, sel, imp, it, t, ev, ran, suites, attrs, files, pc>>
 
+(* sel: the tests the filters select (possibly none); imp: how many test      *)
+(* modules fail to import; files: the suites that got a report file           *)
 Init == /\ cls \in [1..NT -> Classes] /\ outc \in [1..NT -> Outcomes]
-        /\ it = 1 /\ t = 1 /\ ev = 1 /\ pc = "run"
-        /\ suites = [s \in Classes \cup {"SubTest"} |-> <<>>]
-        /\ attrs = [s \in Classes \cup {"SubTest"} |-> [tests |-> 0, errors |-> 0, failures |-> 0]]
+        /\ sel \in SUBSET (1..NT) /\ imp \in 0..NI
+        /\ it = 1 /\ t = 1 /\ ev = 1 /\ ran = 0 /\ pc = "find" /\ files = {}
+        /\ suites = [s \in SuiteNames |-> <<>>]
+        /\ attrs = [s \in SuiteNames |-> [tests |-> 0, errors |-> 0, failures |-> 0]]
+
+(* import failures are recorded when the tests are found: own = NT + k stands *)
+(* for "the k-th broken module", it = 0 for "before the first iteration"      *)
+RecordImportErrors ==
+  /\ pc = "find"
+  /\ suites' = [s \in SuiteNames |->
+                  IF \E k \in 1..imp : s = ModName(k)
+                  THEN <<[suite |-> s, own |-> NT + (CHOOSE k \in 1..imp : s = ModName(k)),
+                          child |-> "error", it |-> 0]>>
+                  ELSE suites[s]]
+  /\ attrs' = [s \in SuiteNames |->
+                  IF \E k \in 1..imp : s = ModName(k) THEN [attrs[s] EXCEPT !.errors = 1] ELSE attrs[s]]
+  /\ pc' = "run"
+  /\ UNCHANGED <<cls, outc, sel, imp, it, t, ev, ran, files>>
 
 (* the entry _record appends for event e of test x *)
 Entry(x, e) ==
@@ -54,13 +86,15 @@ Advance == IF ev < Len(outc[t]) THEN /\ ev' = ev + 1 /\ UNCHANGED <<t, it, pc>>
 Record ==
   /\ pc = "run"
   /\ LET e == outc[t][ev] IN
-       IF e = "S" THEN UNCHANGED <<suites, attrs>>      \* skips are not recorded
-       ELSE LET en == Entry(t, e) IN
-            /\ suites' = [suites EXCEPT ![en.suite] = Append(@, en)]
-            /\ attrs' = [attrs EXCEPT ![en.suite].errors = @ + (IF en.child = "error" THEN 1 ELSE 0),
-                                      ![en.suite].failures = @ + (IF en.child = "failure" THEN 1 ELSE 0)]
+       IF t \notin sel THEN UNCHANGED <<suites, attrs, ran>>     \* filtered out: does not run
+       ELSE /\ ran' = IF ev = 1 THEN ran + 1 ELSE ran
+            /\ IF e = "S" THEN UNCHANGED <<suites, attrs>>       \* skips are not recorded
+               ELSE LET en == Entry(t, e) IN
+                    /\ suites' = [suites EXCEPT ![en.suite] = Append(@, en)]
+                    /\ attrs' = [attrs EXCEPT ![en.suite].errors = @ + (IF en.child = "error" THEN 1 ELSE 0),
+                                              ![en.suite].failures = @ + (IF en.child = "failure" THEN 1 ELSE 0)]
   /\ Advance
-  /\ UNCHANGED <<cls, outc>>
+  /\ UNCHANGED <<cls, outc, sel, imp, files>>
 
 Serialize ==
   /\ pc = "serialize"
@@ -69,48 +103,117 @@ Serialize ==
                     IF "CountDistinctTests" \in Deviations
                     THEN Cardinality({suites[s][k].own : k \in 1..Len(suites[s])})
                     ELSE Len(suites[s])]]
+  /\ files' = IF "ReportOnlyIfRan" \in Deviations /\ ran = 0 THEN {}
+              ELSE {s \in SuiteNames : suites[s] # <<>>}         \* one file per suite that has an entry
   /\ pc' = "done"
-  /\ UNCHANGED <<cls, outc, it, t, ev, suites>>
+  /\ UNCHANGED <<cls, outc, sel, imp, it, t, ev, ran, suites>>
 
-Next == Record \/ Serialize
+Next == RecordImportErrors \/ Record \/ Serialize
 Spec == Init /\ [][Next]_vars /\ WF_vars(Next)
 
-(* ---- P-spec ---------------------------------------------------------------*)
-AllCases == UNION {{<<s, k>> : k \in 1..Len(suites[s])} : s \in DOMAIN suites}
+(* ---- P-spec: what the report *files* say ----------------------------------*)
+(* (a run that selected nothing and in which nothing failed is a don't-care:   *)
+(* no file and an empty report satisfy every clause)                           *)
+AllCases == UNION {{<<s, k>> : k \in 1..Len(suites[s])} : s \in files}
 Case(c) == suites[c[1]][c[2]]
 Count(s, ch) == Cardinality({k \in 1..Len(suites[s]) : suites[s][k].child = ch})
 
-CountsAgree == pc = "done" => \A s \in DOMAIN suites :
+CountsAgree == pc = "done" => \A s \in files :
    /\ attrs[s].tests = Len(suites[s])
    /\ attrs[s].errors = Count(s, "error")
    /\ attrs[s].failures = Count(s, "failure")
 
 Passed(x) == \A k \in 1..Len(outc[x]) : outc[x][k] \in {"ok", "X"}
-PassOncePerIteration == pc = "done" => \A x \in 1..NT : Passed(x) => \A i \in 1..R :
+PassOncePerIteration == pc = "done" => \A x \in sel : Passed(x) => \A i \in 1..R :
    Cardinality({c \in AllCases : Case(c).own = x /\ Case(c).child = "none" /\ Case(c).it = i}) = 1
 
 NEv(x, K) == Cardinality({k \in 1..Len(outc[x]) : outc[x][k] \in K})
-BadCarriesIdentity == pc = "done" => \A x \in 1..NT :
+BadCarriesIdentity == pc = "done" => \A x \in sel :
    /\ Cardinality({c \in AllCases : Case(c).own = x /\ Case(c).child = "failure"
                                      /\ Case(c).suite = cls[x]}) = R * NEv(x, FailKinds)
    /\ Cardinality({c \in AllCases : Case(c).own = x /\ Case(c).child = "error"
                                      /\ Case(c).suite = cls[x]}) = R * NEv(x, ErrKinds)
+(* a reported import failure is a reported error: it appears as a testcase of *)
+(* its module with an error child, whatever the filters selected              *)
+ImportFailuresReported == pc = "done" => \A k \in 1..imp :
+   Cardinality({c \in AllCases : Case(c).own = NT + k /\ Case(c).child = "error"
+                                  /\ Case(c).suite = ModName(k)}) >= 1
+NothingUnselected == pc = "done" => \A c \in AllCases : Case(c).own \in sel \cup {NT + k : k \in 1..imp}
 Terminates == <>(pc = "done")
 
+(* ---- XML 1.0 (fifth edition), production [2] -------------------------------*)
+(*   Char ::= #x9 | #xA | #xD | [#x20-#xD7FF] | [#xE000-#xFFFD] | [#x10000-#x10FFFF] *)
+(* over code points as plain integers (all far below 2^31); nothing here       *)
+(* depends on the interpreter or on any library's idea of a character class    *)
+MaxCp == 1114111                                     \* #x10FFFF
+XmlChar(cp) == \/ cp \in {9, 10, 13}
+               \/ (32 <= cp /\ cp <= 55295)          \* #x20 - #xD7FF
+               \/ (57344 <= cp /\ cp <= 65533)       \* #xE000 - #xFFFD
+               \/ (65536 <= cp /\ cp <= MaxCp)       \* #x10000 - #x10FFFF
+(* both sides of every boundary of the production *)
+XmlBoundaries == {8, 9, 10, 11, 12, 13, 14, 31, 32, 55295, 55296, 57343, 57344, 65533, 65534, 65535, 65536, MaxCp}
+
 (* ---- the serialiser's per-character treatment ---------------------------- *)
-CharClasses == {"plain", "markup", "cdataend", "newline", "c0", "nul", "del_c1",
+CharClasses == {"plain", "markup", "cdataend", "newline", "c0", "vt_ff", "nul", "del_c1",
                 "surrogate", "nonchar", "astral", "nonascii"}
-(* what XML 1.0 allows: as the character itself / as a numeric reference *)
-LegalChar(c) == c \notin {"c0", "nul", "surrogate", "nonchar"}
+(* the code points of every class, as closed ranges.  "cdataend" is a class of *)
+(* *sequences* ("]]>"): its members are made of plain / markup characters, so  *)
+(* it stays outside the partition of the code points.  "vt_ff" (VT, FF) is     *)
+(* apart from the other C0 controls because Python counts it as white space    *)
+(* next to TAB / LF / CR, which XML 1.0 does not.                              *)
+ClassRanges(c) ==
+  CASE c = "nul"       -> {<<0, 0>>}
+    [] c = "c0"        -> {<<1, 8>>, <<14, 31>>}
+    [] c = "vt_ff"     -> {<<11, 12>>}
+    [] c = "newline"   -> {<<9, 10>>, <<13, 13>>}
+    [] c = "markup"    -> {<<34, 34>>, <<38, 39>>, <<60, 60>>, <<62, 62>>}         \* " & ' < >
+    [] c = "plain"     -> {<<32, 33>>, <<35, 37>>, <<40, 59>>, <<61, 61>>, <<63, 126>>}
+    [] c = "del_c1"    -> {<<127, 159>>}
+    [] c = "nonascii"  -> {<<160, 55295>>, <<57344, 65533>>}
+    [] c = "surrogate" -> {<<55296, 57343>>}
+    [] c = "nonchar"   -> {<<65534, 65535>>}
+    [] c = "astral"    -> {<<65536, MaxCp>>}
+    [] c = "cdataend"  -> {<<93, 93>>, <<62, 62>>}
+CodePointClasses == CharClasses \ {"cdataend"}
+InClass(cp, c) == \E r \in ClassRanges(c) : r[1] <= cp /\ cp <= r[2]
+ClassOf(cp) == CHOOSE c \in CodePointClasses : InClass(cp, c)
+
+(* Every predicate above is a finite union of ranges, so it is constant        *)
+(* between two neighbouring cut points; evaluating at every cut point and at   *)
+(* its predecessor is therefore as good as evaluating at all 1 114 112 code    *)
+(* points (CharTableExhaustive does the latter, thorough tier).                *)
+AllRanges == UNION {ClassRanges(c) : c \in CodePointClasses}
+CutPoints == LET raw == XmlBoundaries \cup {r[1] : r \in AllRanges} \cup {r[2] + 1 : r \in AllRanges}
+             IN {cp \in raw \cup {c - 1 : c \in raw \ {0}} : cp <= MaxCp}
+CharTableAt(S) ==
+  /\ \A r \in AllRanges : r[1] <= r[2] /\ r[2] <= MaxCp
+  /\ \A cp \in S : Cardinality({c \in CodePointClasses : InClass(cp, c)}) = 1      \* a partition
+  /\ \A cp \in S : \A c \in CodePointClasses : \A r \in ClassRanges(c) :           \* no class straddles
+        (r[1] <= cp /\ cp <= r[2]) => (XmlChar(cp) <=> XmlChar(r[1]))               \* a boundary of Char
+CharTableOK == CharTableAt(CutPoints)
+CharTableExhaustive == CharTableAt(0..MaxCp)
+
+(* what XML 1.0 allows: as the character itself / as a numeric reference.      *)
+(* A class is legal iff its code points are (by CharTableOK all or none are).  *)
+LegalClasses == {c \in CharClasses : \A r \in ClassRanges(c) : XmlChar(r[1]) /\ XmlChar(r[2])}
+LegalChar(c) == c \in LegalClasses
+IllegalClasses == CharClasses \ LegalClasses
+(* XmlReport_chars.cfg: one state, the whole code space *)
+CharSpec == Init /\ [][UNCHANGED vars]_vars
+CharTableExhaustiveInv == CharTableExhaustive /\ \A cp \in 0..MaxCp : XmlChar(cp) <=> LegalChar(ClassOf(cp))
 Render(c) ==
   IF "RawSerializer" \in Deviations
-  THEN CASE c \in {"plain", "c0", "nul", "newline", "cdataend"} -> "verbatim"
+  THEN CASE c \in {"plain", "c0", "vt_ff", "nul", "newline", "cdataend"} -> "verbatim"
          [] c = "markup" -> "entity"
          [] OTHER -> "charref"               \* us-ascii + xmlcharrefreplace
-  ELSE IF LegalChar(c) THEN (IF c \in {"plain", "newline", "cdataend"} THEN "verbatim"
-                             ELSE IF c = "markup" THEN "entity" ELSE "charref")
+  ELSE IF LegalChar(c) \/ ("KeepPythonWhitespace" \in Deviations /\ c = "vt_ff")
+       THEN (IF c \in {"plain", "newline", "cdataend", "vt_ff"} THEN "verbatim"
+             ELSE IF c = "markup" THEN "entity" ELSE "charref")
        ELSE "replaced"
 WellFormedChar(c) == Render(c) \in {"entity", "replaced"} \/ LegalChar(c)
-WellFormedStrings == \A s \in UNION {[1..n -> CharClasses] : n \in 0..3} :
-                        \A k \in DOMAIN s : WellFormedChar(s[k])
+(* constant-level: TLC evaluates it once, before the first state *)
+WellFormedStrings == /\ CharTableOK
+                     /\ IllegalClasses = {"c0", "vt_ff", "nul", "surrogate", "nonchar"}
+                     /\ \A s \in UNION {[1..n -> CharClasses] : n \in 0..3} :
+                           \A k \in DOMAIN s : WellFormedChar(s[k])
 =============================================================================
